@@ -20,8 +20,9 @@ import (
 // does not explore Go's scheduler, rendezvous timing or data races.
 
 type chanItem struct {
-	g *smt.Term // guard under which the item was sent (true: complete)
-	v Value
+	seg int       // race.go: segment of the sender that ended at the send (-1: not recorded)
+	g   *smt.Term // guard under which the item was sent (true: complete)
+	v   Value
 }
 
 type gor struct {
@@ -141,6 +142,7 @@ func (in *Interp) goStmt(fr *Frame, env Env, g *ssa.Go) {
 	s := in.scheduler()
 	gr := &gor{id: len(s.gs), wake: make(chan struct{})}
 	s.gs = append(s.gs, gr)
+	in.raceGo(s.cur.id, gr.id)
 	go func() {
 		<-gr.wake
 		if s.abort {
@@ -200,7 +202,7 @@ func (in *Interp) chanSend(ch Value, v Value) {
 		last.g = in.St.Or(last.g, g)
 		return
 	}
-	c.items = append(c.items, chanItem{g: g, v: v})
+	c.items = append(c.items, chanItem{g: g, v: v, seg: in.raceSend(c)})
 }
 
 func (in *Interp) chanRecv(ch Value, commaOk bool, t types.Type) Value {
@@ -228,6 +230,7 @@ func (in *Interp) chanRecv(ch Value, commaOk bool, t types.Type) Value {
 	cur.waitOn = nil
 	it := c.items[0]
 	c.items = c.items[1:]
+	in.raceRecv(c, it.seg)
 	if commaOk {
 		return &TupleVal{E: []Value{it.v, in.St.T}}
 	}
